@@ -5,8 +5,13 @@ app/execution_state.rs), driven through the hook app/verif_c05.rs.
 One case = N independent replicas of the sequencer App (own TempStorage each) with the same
 genesis, then a number of heights.  At every height one block D<h> is decided; every replica gets
 it through its own legal ABCI call path (proposer, validator, other proposals first, own proposal
-not decided, finalize only, restart at various points, ...).  The monitor compares, on the
-implementation's observations alone, all FinalizeBlock responses and post-commit dumps pairwise."""
+not decided, finalize only, restart at various points, ...).  At half of the heights there is a
+NEAR TWIN T of D: the same txs, but ONE other request field the application reads (misbehavior
+naming a current validator, block time, proposer address, next validators hash, last-commit
+round / votes, block hash); one of the two is decided after replicas have prepared / processed the
+other one, so a cached execution may only be reused when every field agrees.  The monitor
+compares, on the implementation's observations alone, all FinalizeBlock responses and post-commit
+dumps pairwise."""
 import os
 import re
 from collections import Counter
@@ -71,6 +76,52 @@ PROPOSER_PATHS = {
 }
 
 
+# ---- near twins: at such a height there is, next to D, a block T = D except for ONE request field
+# (misbehavior, time, proposer, next validators hash, last-commit round, last-commit votes, block
+# hash).  One of the two is decided (W), the other (O) is what replicas have cached before.
+# Steps: D / T = the two blocks by name, W / O = decided / other, "prep O" = an own PrepareProposal
+# with exactly O's request fields (the response is compared with O: same mempool, same state).
+NT_PROPOSER_PATHS = {            # the replica which prepared D (first step, emitted before T is defined)
+    "T": {                       # ... and the near twin T is decided
+        "nP1": ["prep D", "proc T", "fin T"],
+        "nP2": ["prep D", "fin T"],
+        "nP3": ["prep D", "proc D", "proc T", "fin T"],
+        "nP4": ["prep D", "proc D", "fin T"],
+        "nP5": ["prep D", "proc T", "restart", "fin T"],
+        "nP6": ["prep D", "proc T", "proc D", "proc T", "fin T"],
+    },
+    "D": {                       # ... and D itself is decided after the node saw T
+        "nQ1": ["prep D", "proc T", "proc D", "fin D"],
+        "nQ2": ["prep D", "proc T", "fin D"],
+        "nQ3": ["prep D", "proc D", "proc T", "fin D"],
+        "nQ4": ["prep D", "proc D", "proc T", "proc D", "fin D"],
+        "nQ5": ["prep D", "proc D", "fin D"],
+    },
+}
+NT_PATHS = {
+    "nOV": ["proc O", "proc W", "fin W"],
+    "nOF": ["proc O", "fin W"],
+    "nOOV": ["proc O", "proc O", "proc W", "fin W"],
+    "nWOW": ["proc W", "proc O", "proc W", "fin W"],
+    "nWOF": ["proc W", "proc O", "fin W"],
+    "nYOV": ["prep Y", "proc O", "proc W", "fin W"],
+    "nORV": ["proc O", "restart", "proc W", "fin W"],
+    "nOFRF": ["proc O", "fin W", "restart", "fin W"],
+    "nV": ["proc W", "fin W"],
+    "nF": ["fin W"],
+    "nRF": ["restart", "fin W"],
+}
+NT_PREP_PATHS = {                # own proposal with O's request fields first (not for lc / round twins)
+    "nTV": ["prep O", "proc W", "fin W"],
+    "nTF": ["prep O", "fin W"],
+    "nTTV": ["prep O", "proc O", "proc W", "fin W"],
+    "nTTF": ["prep O", "proc O", "fin W"],
+    "nTWO": ["prep O", "proc W", "proc O", "fin W"],
+}
+NT_FIELDS = ["misb"] * 4 + ["time"] * 2 + ["prop", "nvh", "round", "votes", "salt"]
+FLAGNUM = {"a": 1, "c": 2, "n": 3}             # BlockIdFlag
+
+
 def kvs(tokens):
     return dict(t.split("=", 1) for t in tokens if "=" in t)
 
@@ -90,6 +141,8 @@ class Gen:
         self.nonces = Counter()
         self.pairs = set()
         self.evid = 0
+        self.alive = {0, 1, 2, 3}          # genesis validators not yet removed by decided evidence
+        self.ecspecs = {}
 
     def emit(self, s):
         self.lines.append(s)
@@ -276,7 +329,51 @@ class Gen:
         if r.random() < 0.05:
             votes = []
         self.emit("ec %s round=%d votes=%s" % (name, rnd, "/".join(votes) or "-"))
+        self.ecspecs[name] = (rnd, votes)
         return name, rnd
+
+    @staticmethod
+    def merge_args(args, override):
+        """the argument string `args` of a prep with the key of `override` (k=v) replaced / added
+        (before txs=, which stays last)"""
+        key = override.split("=", 1)[0]
+        toks = [t for t in args.split() if not t.startswith(key + "=")]
+        toks.insert(len(toks) - 1, override)
+        return " " + " ".join(toks)
+
+    def near_twin_override(self, h, ecname, ecround, dprop):
+        """(field, override arguments of `hand T like=D`, usable for an own PrepareProposal)"""
+        r = self.rng
+        f = r.choice(NT_FIELDS)
+        if f == "votes" and not (ecname and self.ecspecs[ecname][1]):
+            f = "round"
+        if f == "misb":
+            pool = sorted(self.alive) if len(self.alive) > 2 else []
+            if pool and r.random() < 0.8:
+                who = r.sample(pool, 2 if len(pool) > 3 and r.random() < 0.15 else 1)
+            else:
+                who = [r.choice([5, 6, 7])]            # evidence against somebody who is no validator (any more)
+            return f, "misb=%s" % ",".join("a%d" % k for k in who), True
+        if f == "time":
+            return f, "tplus=%d" % r.choice([1, 2, 500, 999, 1000, 86400000]), True
+        if f == "prop":
+            return f, "prop=a%d" % r.choice([k for k in range(4) if k != dprop]), True
+        if f == "nvh":
+            return f, "nvh=%d" % r.randint(1, 9), True
+        if f == "salt":
+            return f, "salt=%d" % r.randint(1, 99), True
+        if f == "round":
+            return f, "round=%d" % (ecround + r.choice([1, 1, 2])), False
+        rnd, votes = self.ecspecs[ecname]
+        votes = list(votes)
+        k = r.randrange(len(votes))
+        acct, flag = votes[k].split(":")[:2]
+        votes[k] = "%s:%s:-" % (acct, {"c": "a", "n": "a", "a": "n"}[flag])
+        self.ecn += 1
+        name = "e%db" % self.ecn
+        self.emit("ec %s round=%d votes=%s" % (name, rnd, "/".join(votes)))
+        self.ecspecs[name] = (rnd, votes)
+        return "votes", "lc=%s" % name, False
 
     def height(self, h, ninst, style, bridge, ve, ids):
         r = self.rng
@@ -351,45 +448,87 @@ class Gen:
             self.emit("hand %d %s%s%s prop=a1 round=%d tplus=%d%s txs=%s" % (
                 scratch, X, common, mode, ecround, r.randint(1, 9), bad, ",".join(sub) or "-"))
         proposer = r.randrange(0, ninst - 1)
-        pargs = "%s prop=a%d round=%d txs=%s" % (common, r.choice([0, 2, 3]), ecround, allnames)
+        dprop = r.choice([0, 2, 3])
+        pargs = "%s prop=a%d round=%d txs=%s" % (common, dprop, ecround, allnames)
         ysub = [t["name"] for t in txs if r.random() < 0.5]
         yargs = "%s prop=a3 round=%d tplus=%d txs=%s" % (common, ecround, 11, ",".join(ysub) or "-")
         if byz:
             # a block no honest proposer would build is decided (needs > 2/3 byzantine power)
             self.emit("hand %d %s%s prop=a2 round=%d txs=%s" % (scratch, D, common, ecround, allnames))
+        # a near twin T of D: equal except for one request field; one of the two is decided
+        nt = None
+        if r.random() < 0.5:
+            f, ov, preparable = self.near_twin_override(h, ecname, ecround, 2 if byz else dprop)
+            nt = {"field": f, "ov": ov, "T": "T%d" % h, "decided": r.choice(["T", "T", "T", "D", "D"]),
+                  "prep": preparable and not byz}
+            if byz:
+                self.emit("hand %d %s like=%s %s" % (scratch, nt["T"], D, ov))
+        W = nt["T"] if nt and nt["decided"] == "T" else D
+        O = (D if W != D else nt["T"]) if nt else None
         plan = []
         for i in range(ninst):
             if i == scratch:
-                plan.append((i, "F", PATHS["F"]))
+                plan.append((i, "F", ["fin W"]))
             elif i == proposer and not byz:
-                k = r.choice([k for k in PROPOSER_PATHS if X or "X" not in "".join(PROPOSER_PATHS[k])])
-                plan.append((i, k, PROPOSER_PATHS[k]))
+                if nt:
+                    # the chain that matters most: prepared D is cached, the twin arrives through
+                    # ProcessProposal + FinalizeBlock
+                    table = NT_PROPOSER_PATHS[nt["decided"]]
+                    k = "nP1" if nt["decided"] == "T" and r.random() < 0.5 else r.choice(sorted(table))
+                    plan.append((i, k, table[k]))
+                else:
+                    k = r.choice([k for k in PROPOSER_PATHS if X or "X" not in "".join(PROPOSER_PATHS[k])])
+                    plan.append((i, k, PROPOSER_PATHS[k]))
+            elif nt and r.random() < 0.75:
+                table = dict(NT_PATHS)
+                if nt["prep"]:
+                    table.update(NT_PREP_PATHS)
+                k = r.choice(sorted(table))
+                plan.append((i, k, table[k]))
             else:
                 k = r.choice([k for k in PATHS if X or k not in NEED_X])
-                plan.append((i, k, PATHS[k]))
+                plan.append((i, k, [x.replace(" D", " W") for x in PATHS[k]]))
+        if nt and nt["prep"] and r.random() < 0.8:
+            # ... and the same chain from the other side: an own proposal with O's fields is cached,
+            # W is processed and finalized
+            q = r.choice([i for i in range(ninst - 1) if i != proposer])
+            plan[q] = (q, "nTV", NT_PREP_PATHS["nTV"])
         # a second replica preparing the very same proposal must produce the very same block
         twin = None
-        if not byz and ninst >= 5 and r.random() < 0.3:
+        if not byz and not nt and ninst >= 5 and r.random() < 0.3:
             twin = r.choice([i for i in range(ninst - 1) if i != proposer])
             plan[twin] = (twin, "P", PROPOSER_PATHS["P"])
         self.emit("#paths %s" % " ".join("%d:%s" % (i, k) for i, k, _ in plan))
+        if nt:
+            self.emit("#nt %d field=%s decided=%s %s" % (h, nt["field"], nt["decided"], nt["ov"]))
         order = [proposer] + [i for i in range(ninst) if i != proposer]
+        twin_defined = byz
         for i in order:
             _, k, steps = plan[i]
             for s in steps:
                 op, _, arg = s.partition(" ")
+                blk = {"D": D, "X": X, "W": W, "O": O, "T": nt["T"] if nt else None,
+                       "Y": "Y%d_%d" % (h, i)}.get(arg)
                 if op == "prep":
-                    if arg == "D":
+                    if arg == "D" or (arg == "O" and O == D):
                         self.emit("prep %d %s%s" % (i, D, pargs))
+                    elif arg == "O":
+                        self.emit("prep %d %s%s %s" % (i, O, self.merge_args(pargs, nt["ov"]), ""))
+                        self.lines[-1] = self.lines[-1].rstrip()
                     else:
-                        self.emit("prep %d Y%d_%d%s" % (i, h, i, yargs))
+                        self.emit("prep %d %s%s" % (i, blk, yargs))
+                    if nt and not twin_defined and arg == "D":
+                        self.emit("hand %d %s like=%s %s" % (scratch, nt["T"], D, nt["ov"]))
+                        twin_defined = True
                 elif op == "proc":
-                    self.emit("proc %d %s" % (i, D if arg == "D" else X if arg == "X" else "Y%d_%d" % (h, i)))
+                    self.emit("proc %d %s" % (i, blk))
                 elif op == "fin":
-                    self.emit("fin %d %s" % (i, D))
+                    self.emit("fin %d %s" % (i, blk))
                 else:
                     self.emit("restart %d" % i)
             self.emit("commit %d" % i)
+        if nt and nt["decided"] == "T" and nt["field"] == "misb":
+            self.alive -= {int(x[1:]) for x in nt["ov"].split("=", 1)[1].split(",")}
         for i in range(ninst):
             self.emit("idump %d" % i)
         if not byz:
@@ -476,7 +615,13 @@ class C05(CaseCheck):
             "nonce gaps), optionally another hand-built proposal X (subset / other order / corrupted commitment / "
             "missing data item / unvalidated extended commit) and per-replica own proposals Y; every replica receives "
             "the decided block through a randomly chosen legal call path (P P0 PY PYP PR PXD V F RF VR VV O OX OO DXD "
-            "DXDD R2 R2P PF PPF YRV XY FRF VFRF); post-Aspen heights >= 3 carry a signed extended commit (3-4 of 4 validators, "
+            "DXDD R2 R2P PF PPF YRV XY FRF VFRF); at 50% of the heights a near twin T of D (= D except for one of: "
+            "misbehavior evidence against 1-2 current validators or a non-validator, block time +1ms..+1d, proposer "
+            "address, next_validators_hash, last-commit round, one last-commit vote flag, block hash only) is defined "
+            "(`hand T like=D <field>`), T or D is decided (50/50) and the replicas reach the decided block W from the "
+            "other one O through the near-twin paths (the preparer of D: nP1-nP6 prepare D [process D] then process / "
+            "finalize T, nQ1-nQ5 prepare D, process T, then D; others: nOV nOF nOOV nWOW nWOF nYOV nORV nOFRF nV nF nRF, "
+            "and own PrepareProposal with O's fields first: nTV nTF nTTV nTTF nTWO); post-Aspen heights >= 3 carry a signed extended commit (3-4 of 4 validators, "
             "rounds 0-2, prices for 0-3 of the stored pairs incl. an unknown id, occasionally a forged or missing "
             "signature or an empty commit); 6% of the decided blocks are hand-built (byzantine majority); non-trivial "
             "= at least three replicas finalize a decided block that has a user tx or an oracle price; distinct = "
@@ -488,7 +633,12 @@ class C05(CaseCheck):
         "(printed by the hook) and the validity of the extended commit (ecok, C15's subject)",
         "cnidarium StateDelta / Snapshot / ephemeral object store are modelled as functional state copies",
         "CometBFT's block hash determines the block (hash_consistent); the hook derives the hash from height, time, "
-        "proposer, last commit and data",
+        "proposer, last commit, data, misbehavior, next_validators_hash and a salt (standing for what CometBFT hashes "
+        "but never shows to the application); two blocks equal in everything the application sees may still have "
+        "different hashes (near twin `salt`)",
+        "evidence is always a DuplicateVote at the previous height with fixed power / total power; only the named "
+        "validator varies (the application reads nothing else of it); the validator set of the model's concrete "
+        "ledger follows ValidatorUpdate actions post-Aspen only (upgrade cases do not compare validator lines)",
         "a proposer's mempool holds only transactions whose construction checks pass on the state the block starts "
         "from (mempool_fresh); transactions that went stale in the mempool are not generated (C06 / C13 territory)",
         "block size limits of PrepareProposal are not modelled (the generated mempools stay far below them)",
@@ -557,7 +707,8 @@ class C05(CaseCheck):
         txdef = {}
         blocknum = {}
         ecs = {}
-        ecidx = {}
+        ecfull = {}          # ec name -> (round, [(validator, flag number)])
+        fields = {}          # block name -> request fields given to the model
         inited = False
         height = None
         for h, seg in segs:
@@ -594,8 +745,15 @@ class C05(CaseCheck):
                             if any(p not in PAIRNUM for p in ps):
                                 return None
                             oacts.append(sign + ".".join(str(PAIRNUM[p]) for p in ps))
-                    txdef[name] = "mtx %d signer=%s nonce=%s group=%d body=%d oacts=%s" % (
-                        txnum[name], t[2][1:], t[3], group, kinds.get(name, 0), "/".join(oacts) or "-")
+                    vupd = []
+                    for a in " ".join(t[4:]).split(" ; "):
+                        at = a.split()
+                        if at and at[0] == "valupdate":
+                            k = kvs(at[1:])
+                            vupd.append("%s:%s" % (k["key"][1:], k["power"]))
+                    txdef[name] = "mtx %d signer=%s nonce=%s group=%d body=%d oacts=%s vupd=%s" % (
+                        txnum[name], t[2][1:], t[3], group, kinds.get(name, 0), "/".join(oacts) or "-",
+                        "/".join(vupd) or "-")
                     out.append(txdef[name])
                 elif t[0] == "ec":
                     k = kvs(t[2:])
@@ -605,10 +763,12 @@ class C05(CaseCheck):
                         if f[1] == "c":
                             votes.append(f[2] if f[2] != "-" else "")
                     ecs[t[1]] = (int(k["round"]), votes)
-                    ecidx.setdefault(t[1], len(ecidx) + 1)
+                    ecfull[t[1]] = (int(k["round"]), [
+                        (int(v.split(":")[0][1:]), FLAGNUM[v.split(":")[1]])
+                        for v in (k["votes"].split("/") if k["votes"] != "-" else [])])
                 elif t[0] == "idump":
                     if not inited:
-                        pairs, nonces, nxt, num = [], [], 0, 0
+                        pairs, nonces, nxt, num, vals = [], [], 0, 0, []
                         for g in got:
                             gt = g.split()
                             if gt[0] == "oracle":
@@ -621,9 +781,13 @@ class C05(CaseCheck):
                                 nxt, num = k["next"], k["num"]
                             elif gt[0] == "nonce":
                                 nonces.append("%s:%s" % (gt[1][1:], gt[2]))
+                            elif gt[0] == "validator":
+                                if not gt[1].startswith("a"):
+                                    return None
+                                vals.append("%s:%s" % (gt[1][1:], kvs(gt[2:])["power"]))
                         hh = 0
-                        out.append("init pairs=%s next=%s num=%s nonces=%s height=%d" % (
-                            ";".join(pairs) or "-", nxt, num, ",".join(nonces) or "-", hh))
+                        out.append("init pairs=%s next=%s num=%s nonces=%s height=%d vals=%s" % (
+                            ";".join(pairs) or "-", nxt, num, ",".join(nonces) or "-", hh, ",".join(vals) or "-"))
                         inited = True
                         out.append("idump %s" % t[1])
                     else:
@@ -633,20 +797,46 @@ class C05(CaseCheck):
                     k = kvs(t[3:])
                     gk = kvs(g)
                     if "h" not in gk:
-                        out.append("%s %s %s meta=0 hash=0 valid=0 votes=- queue=- txs=-" % (t[0], t[1], t[2]))
                         return None
                     hgt = int(gk["h"])
-                    prop = int(k.get("prop", "a0")[1:])
-                    rnd = int(k.get("round", "0"))
-                    tplus = int(k.get("tplus", "0"))
-                    ec = k.get("ec")
-                    meta = ((((hgt * 100 + prop) * 100 + rnd) * 100 + tplus) * 100 + (ecidx.get(ec, 0)))
                     blocknum.setdefault(t[2], len(blocknum) + 1)
                     ve = gk.get("ve") == "1"
+                    if "like" in k:
+                        # near twin: the base block's fields with the given ones replaced
+                        if k["like"] not in fields:
+                            return None
+                        f = dict(fields[k["like"]])
+                        if "tplus" in k:
+                            f["time"] = hgt * 1000 + int(k["tplus"])
+                        if "prop" in k:
+                            f["prop"] = int(k["prop"][1:])
+                        if "nvh" in k:
+                            f["nvh"] = int(k["nvh"])
+                        if "misb" in k:
+                            f["misb"] = [int(x[1:]) for x in k["misb"].split(",")] if k["misb"] != "-" else []
+                        if k.get("lc", "-") != "-":
+                            f["lcround"], f["lcvotes"] = ecfull[k["lc"]]
+                        if "round" in k:
+                            f["lcround"] = int(k["round"])
+                        fields.setdefault(t[2], f)
+                        out.append("hand %s %s like=%s %s hash=%d valid=%s" % (
+                            t[1], t[2], k["like"], C05.show_fields(f), blocknum[t[2]],
+                            "1" if (not ve or gk.get("valid") == "1") else "0"))
+                        continue
+                    ec = k.get("ec")
+                    if ec == "-":
+                        ec = None
+                    f = {"h": hgt, "time": hgt * 1000 + int(k.get("tplus", "0")), "prop": int(k.get("prop", "a0")[1:]),
+                         "nvh": int(k.get("nvh", "0")),
+                         "misb": [int(x[1:]) for x in k["misb"].split(",")] if k.get("misb", "-") != "-" else [],
+                         "lcround": ecfull[ec][0] if ec else int(k.get("round", "0")),
+                         "lcvotes": ecfull[ec][1] if ec else []}
+                    fields.setdefault(t[2], f)
                     votes = "/".join(v or "9999=0" for v in ecs[ec][1]) if (ec and ve) else "-"
                     # a commit vote with an empty extension contributes no prices ("9999=0": unknown id)
-                    line = "%s %s %s meta=%d hash=%d valid=%s votes=%s" % (
-                        t[0], t[1], t[2], meta, blocknum[t[2]], "1" if (ve and gk.get("ecok") == "1") else "0", votes or "-")
+                    line = "%s %s %s %s hash=%d valid=%s votes=%s" % (
+                        t[0], t[1], t[2], C05.show_fields(f), blocknum[t[2]],
+                        "1" if (ve and gk.get("ecok") == "1") else "0", votes or "-")
                     if t[0] == "prep":
                         q = gk.get("queue", "-")
                         line += " queue=%s" % (",".join(str(txnum[x]) for x in q.split(",")) if q != "-" else "-")
@@ -659,6 +849,8 @@ class C05(CaseCheck):
                             line += " ecmode=raw"
                     out.append(line)
                 elif t[0] in ("proc", "fin"):
+                    if len(t) > 3:
+                        return None            # inline near twins (corpus): monitor only
                     out.append("%s %s %s" % (t[0], t[1], t[2]))
                 elif t[0] in ("commit", "restart"):
                     out.append("%s %s" % (t[0], t[1]))
@@ -668,6 +860,12 @@ class C05(CaseCheck):
         if not inited:
             return None
         return out, txnum
+
+    @staticmethod
+    def show_fields(f):
+        return "h=%d time=%d prop=%d nvh=%d lcround=%d lcvotes=%s misb=%s" % (
+            f["h"], f["time"], f["prop"], f["nvh"], f["lcround"],
+            "/".join("%d:%d" % v for v in f["lcvotes"]) or "-", ",".join(str(x) for x in f["misb"]) or "-")
 
     def model_all(self, cases, impl):
         scripts, idx = [], []
@@ -714,6 +912,10 @@ class C05(CaseCheck):
                 elif t[0] == "oracle" and not upgrade:
                     out.append("oracle %s %s" % (PAIRNUM.get(t[1], t[1]), " ".join(t[2:])))
                 elif t[0] == "oraclemeta" and not upgrade:
+                    out.append(l)
+                elif t[0] == "validator" and not upgrade:
+                    out.append("validator %s %s" % (t[1].lstrip("a"), " ".join(t[2:])))
+                elif t[0] == "valcount" and not upgrade:
                     out.append(l)
                 continue
             if t[0] in ("prep", "hand"):
@@ -951,6 +1153,19 @@ class C05(CaseCheck):
         txpairs = {}
         ecs = {}
         blk_args = None
+        # a near twin (`hand .. like=<base>`, or inline `<base>~field=..`) carries the data of its base
+        root = blk.split("~")[0]
+        likes = {}
+        for l in case:
+            t = l.split()
+            if t[:1] == ["hand"] and len(t) > 3:
+                k = kvs(t[3:])
+                if "like" in k:
+                    likes.setdefault(t[2], k["like"])
+        seen_roots = set()
+        while root in likes and root not in seen_roots:
+            seen_roots.add(root)
+            root = likes[root]
         for l in case:
             t = l.split()
             if not t:
@@ -971,7 +1186,7 @@ class C05(CaseCheck):
                     if f[1] == "c" and f[2] != "-":
                         ids |= {int(x.split("=")[0]) for x in f[2].split(",")}
                 ecs[t[1]] = ids
-            elif t[0] in ("prep", "hand") and t[2] == blk and blk_args is None:
+            elif t[0] in ("prep", "hand") and t[2] == root and blk_args is None:
                 blk_args = kvs(t[3:])
         idmap = {}
         info = None
@@ -988,7 +1203,7 @@ class C05(CaseCheck):
             elif t[0] in ("prep", "hand") and len(t) > 3:
                 if t[0] == "prep":
                     cached_now[t[1]] = False
-                if t[2] == blk and info is None and t[3] == "ok" and blk_args is not None:
+                if t[2] == root and info is None and t[3] == "ok" and blk_args is not None:
                     gk = kvs(t[4:])
                     priced = set()
                     if gk.get("ve") == "1" and gk.get("ecok") == "1" and blk_args.get("ec") in ecs:
@@ -1043,6 +1258,10 @@ class C05(CaseCheck):
                         st["path_" + p.split(":")[1]] += 1
                 elif l.startswith("#height "):
                     st["heights"] += 1
+                elif l.startswith("#nt "):
+                    k = kvs(l.split()[2:])
+                    st["near_twin_heights"] += 1
+                    st["near_twin_%s_decided_%s" % (k["field"], "twin" if k["decided"] == "T" else "base")] += 1
             for l in il[1:]:
                 t = l.split()
                 if not t:
